@@ -23,7 +23,7 @@ VARIABLES l,     \* next line of the trace
           mon    \* property-level monitor: [mode, id, inflight, signalled, returned, early, unsig]
 tvars == <<vars, l, mon>>
 
-Mon0 == [mode |-> "none", id |-> 0, live |-> {}, signalled |-> FALSE, returned |-> FALSE, early |-> FALSE, unsig |-> FALSE]
+Mon0 == [mode |-> "none", id |-> 0, live |-> {}, signalled |-> FALSE, returned |-> FALSE, early |-> FALSE, unsig |-> FALSE, open |-> FALSE]
 
 ResetVars == /\ catch' = FALSE /\ waker' = 0 /\ pcH' = "idle" /\ hw' = 0 /\ sigs' = 0
              /\ pcA' = "poll" /\ woken' = FALSE /\ registered' = FALSE
@@ -68,6 +68,9 @@ TReturned == /\ l <= N /\ Ev.ev = "returned" /\ Consume /\ UNCHANGED vars
              /\ mon' = [mon EXCEPT !.returned = TRUE,
                                    !.early = mon.live # {},
                                    !.unsig = ~mon.signalled]
+\* after the interrupt, with sessions in flight, the harness connects again and again until it is refused (i = 1) or gives up after 4 s
+\* (i = 0): in the design `Arrive` is disabled once the loop has been left -- the listener is dropped before the wait, not after it
+TPort == /\ l <= N /\ Ev.ev = "port" /\ Consume /\ UNCHANGED vars /\ mon' = [mon EXCEPT !.open = (Ev.i = 0)]
 \* informational events
 TInfo == /\ l <= N /\ Ev.ev \in {"release", "grace-over", "unserved"} /\ Consume /\ UNCHANGED <<vars, mon>>
 
@@ -75,6 +78,7 @@ TInfo == /\ l <= N /\ Ev.ev \in {"release", "grace-over", "unserved"} /\ Consume
 Sig(e) == IF mon.mode = "proto"
             THEN IF ~e.returned THEN "lost-wakeup" ELSE "ok"
             ELSE IF mon.early THEN "returned-with-session-in-flight"
+                 ELSE IF mon.open THEN "still-listening-after-the-interrupt"
                  ELSE IF mon.unsig THEN "returned-without-interrupt"
                  ELSE IF mon.signalled /\ ~e.returned THEN "never-returned"
                  ELSE IF mon.returned /\ ~Returned THEN "model-drift" ELSE "ok"
@@ -84,7 +88,7 @@ TEnd == /\ l <= N /\ Ev.ev = "end" /\ Consume /\ UNCHANGED vars
                           drift |-> (Returned # Ev.returned)]))
         /\ mon' = Mon0
 
-TNext == TReset \/ TSkip \/ TAct \/ Silent \/ TArrive \/ TStarted \/ TEnded \/ TSignal \/ TReturned \/ TInfo \/ TEnd
+TNext == TReset \/ TSkip \/ TAct \/ Silent \/ TArrive \/ TStarted \/ TEnded \/ TSignal \/ TReturned \/ TPort \/ TInfo \/ TEnd
 TSpec == TInit /\ [][TNext]_tvars
 
 \* the invariants of the design hold in every state of every explained run
